@@ -71,6 +71,8 @@ pub struct TowerState {
     /// kill the client when the n-th add_appointment request arrives: (n, before_answer)
     pub kill_at: Option<(usize, bool)>,
     pub kill_fired: bool,
+    /// every add_appointment is answered this much later (requests overlap)
+    pub add_delay_ms: u64,
     pub adds_seen: usize,
     /// accepted (locator, user signature) pairs
     pub accepted: Vec<(String, String)>,
@@ -160,6 +162,7 @@ impl FakeTower {
             expiry: 1000,
             kill_at: None,
             kill_fired: false,
+            add_delay_ms: 0,
             adds_seen: 0,
             accepted: vec![],
         }));
@@ -335,6 +338,10 @@ impl FakeTower {
         if kill_before {
             self.kill_signal.notify_one();
             tokio::time::sleep(Duration::from_millis(150)).await;
+        }
+        let delay = self.state.lock().unwrap().add_delay_ms;
+        if delay > 0 {
+            tokio::time::sleep(Duration::from_millis(delay)).await;
         }
         let user_sig = body.get("signature").and_then(|x| x.as_str()).unwrap_or("").to_string();
         let loc = body.get("appointment").and_then(|a| a.get("locator")).and_then(|x| x.as_str()).unwrap_or("").to_string();
@@ -543,6 +550,47 @@ impl Plugin {
                 }
             }
         }
+    }
+
+    /// Writes all the requests, then waits for all the answers: the calls are in flight together.
+    pub async fn call_many(&mut self, calls: Vec<(&str, Value)>, timeout_s: u64) -> Vec<Result<Value, CallErr>> {
+        let mut rxs = Vec::new();
+        for (method, params) in calls {
+            let id = self.next_id;
+            self.next_id += 1;
+            let (tx, rx) = oneshot::channel();
+            self.pending.lock().unwrap().insert(id, tx);
+            let msg = json!({"jsonrpc": "2.0", "id": id, "method": method, "params": params}).to_string() + "\n\n";
+            if self.stdin.write_all(msg.as_bytes()).await.is_err() {
+                rxs.push((id, None));
+                continue;
+            }
+            rxs.push((id, Some(rx)));
+        }
+        let _ = self.stdin.flush().await;
+        let mut out = Vec::new();
+        for (id, rx) in rxs {
+            let r = match rx {
+                None => Err(CallErr::Dead),
+                Some(rx) => match tokio::time::timeout(Duration::from_secs(timeout_s), rx).await {
+                    Ok(Ok(v)) => match v.get("error") {
+                        Some(e) => Err(CallErr::Rpc(e.clone())),
+                        None => Ok(v.get("result").cloned().unwrap_or(Value::Null)),
+                    },
+                    Ok(Err(_)) => Err(CallErr::Dead),
+                    Err(_) => {
+                        self.pending.lock().unwrap().remove(&id);
+                        if self.alive() {
+                            Err(CallErr::Timeout)
+                        } else {
+                            Err(CallErr::Dead)
+                        }
+                    }
+                },
+            };
+            out.push(r);
+        }
+        out
     }
 
     pub fn alive(&mut self) -> bool {
@@ -1320,6 +1368,59 @@ async fn scenario_c14(seed: u64, id: u64, base: &Path, r: &mut PropReport) {
         }
         r.count("replies_survived", 1);
         r.sample(|| json!({"scenario": id, "case": case, "endpoint": if on_register { "register" } else { "add_appointment" }, "reply": bname}));
+    }
+    // ---- two notifications in flight at once (two channels revoking together), both acknowledged with a signature by
+    // another key: the tower is proven misbehaving twice over; the client must survive that like any other reply
+    'double_proof: {
+        if !plugin.alive() || id % 3 != 0 {
+            break 'double_proof;
+        }
+        r.eval();
+        let tower = FakeTower::start(&mut rng).await;
+        let tid = hex::encode(tower.id.to_vec());
+        let ctx = format!("scenario {id} two wrongly signed acknowledgements in flight");
+        if plugin.call("registertower", json!([format!("{tid}@127.0.0.1:{}", tower.port)]), 20).await.is_err() {
+            r.inconclusive += 1;
+            break 'double_proof;
+        }
+        {
+            let mut st = tower.state.lock().unwrap();
+            st.default_add = Beh::WrongSig;
+            st.add_delay_ms = 300;
+        }
+        let ra = revocation(&mut rng, 801);
+        let rb = revocation(&mut rng, 802);
+        let params = |rev: &Revocation| json!({"commitment_txid": rev.txid.to_string(), "penalty_tx": hex::encode(consensus::serialize(&rev.penalty)), "channel_id": "ab".repeat(32), "commitnum": rev.n});
+        let res = plugin.call_many(vec![("commitment_revocation", params(&ra)), ("commitment_revocation", params(&rb))], HOOK_TIMEOUT).await;
+        let in_flight_together = {
+            let st = tower.state.lock().unwrap();
+            let adds: Vec<&ReqLog> = st.log.iter().filter(|l| l.endpoint == "add_appointment").collect();
+            adds.len() >= 2 && adds[1].t.duration_since(adds[0].t) < Duration::from_millis(300)
+        };
+        tokio::time::sleep(Duration::from_millis(300)).await;
+        let unanswered = res.iter().filter(|x| x.is_err()).count();
+        if !plugin.alive() || plugin.panic_text().is_some() || unanswered > 0 {
+            r.violation("C14:double-misbehaviour-proof", format!("{ctx}: {unanswered} of the two notifications got no proper answer; client alive: {}; stderr: {:?}", plugin.alive(), plugin.panic_text()), replay.clone());
+            plugin.kill().await;
+            let _ = std::fs::remove_dir_all(&dir);
+            return;
+        }
+        // the client still works: status shown, proof on disk, the next notification answered
+        let st = tower_status(&mut plugin, &tid).await.map(|x| x.0);
+        let has_proof = read_rows(&dir).as_ref().map_or(false, |x| x.proofs.contains(&tid));
+        let probe = revocation(&mut rng, 803);
+        let next_ok = plugin.revoke(&probe, HOOK_TIMEOUT).await.is_ok();
+        if st.as_deref() != Some("misbehaving") || !has_proof || !next_ok {
+            r.violation("C14:double-misbehaviour-proof", format!("{ctx}: afterwards the tower is shown as {st:?}, proof persisted = {has_proof}, next notification answered = {next_ok}; stderr: {:?}", plugin.panic_text()), replay.clone());
+            plugin.kill().await;
+            let _ = std::fs::remove_dir_all(&dir);
+            return;
+        }
+        if in_flight_together {
+            r.count("double_misbehaviour_proofs_in_flight_checked", 1);
+            r.nontrivial(fnv(format!("double-proof:{id}").as_bytes()));
+        }
+        let _ = plugin.call("abandontower", json!([tid]), 10).await;
     }
     // ---- misbehaviour proven on the retry path, then a client restart: the tower stays banned
     'retry_path: {
